@@ -39,6 +39,7 @@ CONSTANTS MaxOps,      \* identifier-allocating requests (publish q>0, subscribe
           Parts,       \* {TRUE, FALSE}: transport writes may be partial; {FALSE}: always complete
           MaxCancel,   \* dropped futures
           MaxFault,    \* transport faults
+          Zeros,       \* TRUE: a write may take nothing (Ok(0)) where no packet is half-written -- counted as a fault
           Dev,         \* enabled deviations
           Record       \* TRUE: keep the history of decisions (behaviour generation)
 
@@ -446,6 +447,17 @@ IoFail ==
   /\ n' = [n EXCEPT !.faults = @ + 1]
   /\ UNCHANGED b
 
+\* The transport takes nothing of a packet that has not been started (write returns Ok(0)): the call returns the
+\* write-zero error, the handle stays up and the packet stays queued, untouched (drive.rs write_current).
+IoZero ==
+  /\ Zeros /\ c.pc.t = "aw" /\ n.faults < MaxFault
+  /\ Entry(c, c.pc.s).w = 0
+  /\ c' = Ret(c, Err("WriteZero"))
+  /\ hist' = Log("wzero", << >>)
+  /\ o' = Track(o, c')
+  /\ n' = [n EXCEPT !.faults = @ + 1]
+  /\ UNCHANGED b
+
 \* Environment assumption: an acknowledgement names an identifier that is either not in use or in
 \* use by an operation of the matching kind; a stale / duplicate acknowledgement is not overtaken
 \* by the reuse of its identifier (that needs 65535 allocations in between, here only IdMax).
@@ -597,6 +609,24 @@ Q0WriteFail ==
   /\ n' = [n EXCEPT !.faults = @ + 1]
   /\ UNCHANGED b
 
+\* ... a QoS 0 publish that the transport takes nothing of: write-zero error, nothing sent, handle up
+Q0Zero ==
+  /\ Zeros /\ c.pc.t = "qw" /\ c.pc.w = 0 /\ n.faults < MaxFault
+  /\ c' = Ret(c, Err("WriteZero"))
+  /\ hist' = Log("wzero", << >>)
+  /\ o' = Track(o, c')
+  /\ n' = [n EXCEPT !.faults = @ + 1]
+  /\ UNCHANGED b
+
+\* ... and a DISCONNECT: "the transport is finished after a DISCONNECT regardless of the write outcome"
+DiscZero ==
+  /\ Zeros /\ c.pc.t = "dw" /\ c.pc.w = 0 /\ n.faults < MaxFault
+  /\ c' = Ret(HandleDisconnect(c), Err("WriteZero"))
+  /\ hist' = Log("wzero", << >>)
+  /\ o' = Track(o, c')
+  /\ n' = [n EXCEPT !.faults = @ + 1]
+  /\ UNCHANGED b
+
 \* ---- broker ---------------------------------------------------------------
 
 Send(p) == n' = [n EXCEPT !.b2c = Append(@, p)]
@@ -702,8 +732,10 @@ Next ==
   \/ \E part \in Parts : Q0Write(part)
   \/ \E ok \in BOOLEAN : Q0Flush(ok)
   \/ Q0WriteFail
+  \/ Q0Zero
   \/ IoFlush
   \/ IoFail
+  \/ IoZero
   \/ \E p \in Range(n.b2c) : IoRead(p)
   \/ LoseInconsistent
   \/ \E kind \in {"eof", "rerr"} : IoReadFail(kind)
@@ -715,6 +747,7 @@ Next ==
   \/ ConnOther([t |-> "PUBACK", id |-> 1, rc |-> 0])
   \/ \E ok \in BOOLEAN : DiscFlush(ok)
   \/ DiscWriteFail
+  \/ DiscZero
   \/ \E x \in b.got : \E fail \in BOOLEAN : BrokerAck(x, fail)
   \/ \E t \in {"PUBACK", "PUBREC", "PUBCOMP", "SUBACK"} : \E id \in StaleIds : BrokerStale(t, id)
   \/ \E q \in 0..2 : \E id \in 1..MaxIn : BrokerPublish(q, id)
